@@ -25,7 +25,9 @@ Inductive lifted :=
    (N = bit 3 .. V = bit 0), and a salt from which every other register and every memory byte is derived *)
 Record sample := mksample { s_ovr : list (Z * Z); s_nzcv : Z; s_salt : Z }.
 
-Inductive case := K (word addr : Z) (big : bool) (obs : lifted) (samples : list sample).
+(* [outside] : the harness enumerated this word on purpose as one the lifter accepts although it is outside the
+   classes of Isa/A64.v (reported per run; target: none) *)
+Inductive case := K (word addr : Z) (big : bool) (outside : bool) (obs : lifted) (samples : list sample).
 
 Fixpoint assocZ (l : list (Z * Z)) (k : Z) : option Z :=
   match l with [] => None | (a, v) :: t => if a =? k then Some v else assocZ t k end.
@@ -36,7 +38,7 @@ Definition default_byte (salt a : Z) : Z := Z.land (a * 167 + Z.shiftr a 8 * 13 
 
 Definition mk_state (addr : Z) (big : bool) (sm : sample) : a64state :=
   let reg := fun r => match assocZ (s_ovr sm) r with Some v => Z.land v 18446744073709551615 | None => default_reg (s_salt sm) r end in
-  mkA reg (reg 31)
+  mkA reg (fun n => Z.land ((s_salt sm + n + 77) * 272225893536750770770699646362995969) 340282366920938463463374607431768211455) (reg 31)
       (Z.testbit (s_nzcv sm) 3) (Z.testbit (s_nzcv sm) 2) (Z.testbit (s_nzcv sm) 1) (Z.testbit (s_nzcv sm) 0)
       (default_byte (s_salt sm)) addr big.
 
@@ -90,21 +92,28 @@ Definition run_sample (i : instr) (addr : Z) (big : bool) (g : cfg) (succs : lis
       end
   end.
 
+(* ACCEPTANCE clause: the specification's decoder + the mirror and the real lifter (bad64 + dispatch) must agree
+   on which words are accepted: a word the lifter accepts that [decode] rejects (unless enumerated as [outside]),
+   and a word [decode] + [lift] accept that the lifter rejects, both fail the check. *)
 Definition ck (k : case) : bool * bool :=
   match k with
-  | K word addr big obs samples =>
+  | K word addr big outside obs samples =>
       match decode word, obs with
       | Some i, LOk g succs =>
           let rs := map (run_sample i addr big g succs) samples in
           (syntactic_tie addr i g succs && forallb fst rs, forallb snd rs)
-      | _, _ => (true, true)
+      | Some i, LErr | Some i, LPanic =>
+          let rejected := match lift addr i with Ok _ => false | _ => true end in (true, rejected)
+      | None, LOk _ _ => (true, outside)
+      | _, LOther => (false, false)
+      | None, _ => (true, true)
       end
   end.
 
 (* ------------------------------------------------------------------ diagnostics (not used by ck) *)
 Definition explain (k : case) :=
   match k with
-  | K word addr big obs samples =>
+  | K word addr big _ obs samples =>
       match decode word, obs with
       | Some i, LOk g succs =>
           Some (i, lift addr i, syntactic_tie addr i g succs, map (run_sample i addr big g succs) samples)
@@ -114,7 +123,7 @@ Definition explain (k : case) :=
 (* is the case one the property speaks about (decoded, accepted) and with at least one defined sample *)
 Definition covered (k : case) : bool :=
   match k with
-  | K word addr big obs samples =>
+  | K word addr big _ obs samples =>
       match decode word, obs with
       | Some i, LOk _ _ => existsb (fun sm => match a64step i (mk_state addr big sm) with Done _ => true | Undef => false end) samples
       | _, _ => false
